@@ -6,7 +6,7 @@
     address parsing, data directory), which enter as the oracle record [O]. *)
 From Coq Require Import List ZArith String.
 From AGH Require Import Model.Migrate Proofs.Migrate Proofs.MigrateFrame Proofs.MigrateSim
-  Proofs.MigrateTable Gen.MigrateTable.
+  Proofs.MigrateTable Gen.MigrateTable Proofs.MigrateFrameDns.
 Import ListNotations.
 Local Open Scope string_scope.
 Local Open Scope Z_scope.
@@ -69,6 +69,23 @@ Theorem C13_frame : forall O top target m' k,
   get k m' = get k (input_map top).
 Proof. exact migrate_frame. Qed.
 Print Assumptions C13_frame.
+
+(** The same inside the [dns] section, where most settings live: from schema
+    version 2 on (step 2 replaces the section by [coredns]) every key of [dns]
+    outside [dns_written] keeps its value, and the section stays a section. *)
+Theorem C13_frame_dns : forall O top t m' d k,
+  migrate O top t = ONew m' -> 2 <= version_of (input_map top) ->
+  get "dns" (input_map top) = Some (VObj d) -> mem_b k dns_written = false ->
+  exists d', get "dns" m' = Some (VObj d') /\ get k d' = get k d.
+Proof. exact migrate_dns_frame. Qed.
+Print Assumptions C13_frame_dns.
+
+Example C13_frame_dns_satisfiable :
+  mem_b "port" dns_written = false /\
+  exists m' d', migrate oracles0 (Some (upd "dns" (VObj [("port", VInt 5353); ("all_servers", VBool true)]) doc22)) 29 = ONew m' /\
+    get "dns" m' = Some (VObj d') /\ get "port" d' = Some (VInt 5353) /\ get "all_servers" d' = None.
+Proof. exact doc22_dns_frame. Qed.
+Print Assumptions C13_frame_dns_satisfiable.
 
 (** Path independence, for every document, every target and every split point
     [k] strictly between the document's version and the target: upgrading to
